@@ -51,7 +51,7 @@ def case(draw):
     hyd = "all" if mode == ["--assign-only"] else None
     wild = draw(st.booleans())
     desc = draw(e2e.structure(max_chains=3, nmax=5, wild=wild, contact=True, hyd=hyd,
-                              missing=draw(st.integers(0, 3)) == 0 and not mode))  # fmt: skip
+                              missing=draw(st.integers(0, 2)) == 0 and mode not in (["--assign-only"], ["--clean"])))  # fmt: skip
     return dict(part="e2e", desc=desc, ff=draw(st.sampled_from(strat.FFS)), opts=list(mode), wild=wild)
 
 
@@ -101,6 +101,17 @@ def check(case):
                 swap = [c, cb, o2, o1]
                 e_straight = geom.rmsd_fit([names[k] for k in star], [out[k] for k in star])
                 e_swapped = geom.rmsd_fit([names[k] for k in star], [out[k] for k in swap])
+                if e_swapped < e_straight:
+                    out[o1], out[o2] = out[o2], out[o1]
+                    res.label("carboxyl-names-swapped")
+            elif base in ("ASP", "GLU") and o1 in out and o2 in out and c in out and cb in out and c in names and cb in names \
+                    and (o1 in names) != (o2 in names):
+                # only one oxygen was supplied (the other one is rebuilt): it may carry either name
+                oin = o1 if o1 in names else o2
+                oth = o2 if oin == o1 else o1
+                star = [c, cb, oin]
+                e_straight = geom.rmsd_fit([names[k] for k in star], [out[k] for k in star])
+                e_swapped = geom.rmsd_fit([names[k] for k in star], [out[c], out[cb], out[oth]])
                 if e_swapped < e_straight:
                     out[o1], out[o2] = out[o2], out[o1]
                     res.label("carboxyl-names-swapped")
